@@ -486,6 +486,12 @@ impl InterfaceInner {
                 lladdr,
                 ..
             } => {
+                if !self.has_ip_addr(target_addr) {
+                    // Not about one of our addresses: silently discard (RFC 4861 7.2.3),
+                    // in particular do not learn the sender's link-layer address from it.
+                    return None;
+                }
+
                 if let Some(lladdr) = lladdr {
                     let lladdr = check!(lladdr.parse(self.caps.medium));
                     if !lladdr.is_unicast() || !target_addr.x_is_unicast() {
